@@ -541,6 +541,47 @@ fn c12_sizing(s: &mut Sink, g: &mut u64) {
         }
     }
     s.done("long programs: 65535, 65536, 65537 (thorough: 1000000) instructions");
+    // far jumps and far local calls (32-bit displacement for calls, 16-bit for jumps)
+    for (n, p, d, call) in [
+        (70_000usize, 10usize, 32768i32, true), (70_000, 10, 40_000, true), (70_000, 10, 69_000, true), (70_000, 69_000, -32769, true),
+        (70_000, 69_000, -40_000, true), (70_000, 69_000, -68_000, true), (70_000, 40_000, 200, true), (70_000, 40_000, -200, true),
+        (70_000, 10, 32767, false), (70_000, 69_000, -32768, false), (70_000, 40_000, 127, false), (70_000, 40_000, -129, false),
+    ] {
+        let idx = *g;
+        *g += 1;
+        if !s.take(idx) {
+            continue;
+        }
+        let mut prog = vec![isa::add64i(0, 1); n];
+        prog[0] = isa::mov64i(0, 0);
+        prog[n - 1] = isa::EXIT;
+        let t = (p as i64 + 1 + d as i64) as usize;
+        if call {
+            prog[p] = isa::call_local(d);
+            prog[t + 1] = isa::EXIT;
+        } else {
+            prog[p] = I::new(0x15, 0, 0, d as i16, 5);
+        }
+        let bytes = isa::enc(&prog);
+        for eng in [Eng::Jit, Eng::Cl] {
+            let r = catch(|| {
+                let mut vm = AnyVm::new(VmKind::NoData, Some(&bytes)).map_err(|e| format!("load: {e}"))?;
+                vm.compile(eng)
+            });
+            s.count("traces_validated_against_impl", 1);
+            s.count("evaluations", 1);
+            s.count("states", 1);
+            s.count("transitions", 1);
+            let what = if call { "far-local-call" } else { "far-jump" };
+            match r {
+                Ok(Ok(())) => s.outcome("compile-ok", 1),
+                Ok(Err(e)) if call && eng == Eng::Cl && !e.starts_with("load") => s.outcome("cranelift-refused-local-call", 1),
+                Ok(Err(e)) => s.violation(&format!("{}/{what}/compile-err", eng.name()), format!("{n} instructions, {what} at {p} displacement {d}: {e}"), json!({"kind":"none"})),
+                Err(m) => s.violation(&format!("{}/{what}/compile-{}", eng.name(), panic_class(&m)), format!("{n} instructions, {what} at {p} displacement {d}: compilation panicked: {m}"), json!({"kind":"none"})),
+            }
+        }
+    }
+    s.done("far jumps (16-bit displacement limits) and far local calls (beyond +-32768) in 70000-instruction programs");
 }
 
 pub fn run(s: &mut Sink, mode: Mode) {
